@@ -26,7 +26,7 @@ struct Data
 };
 using Wrapped = MW_NS::MutexWrapped<Data>;
 
-enum { CTR_OCC = 0, CTR_INCR = 1, CTR_MAXOCC = 2 };
+enum { CTR_OCC = 0, CTR_INCR = 1, CTR_MAXOCC = 2, CTR_OCC2 = 3, CTR_INCR2 = 4, CTR_MAXOCC2 = 5 };
 
 struct Section
 {
@@ -46,6 +46,7 @@ struct Run
 };
 Run g_run;
 Wrapped* g_mw = nullptr;
+Wrapped* g_mw2 = nullptr;   // a second, independent instance of the same MutexWrapped<T>
 
 void rec(const std::string& s) { sim_rec(s.c_str()); }
 
@@ -56,6 +57,26 @@ void enter()
   if (occ > 1) rec("occupancy n=" + std::to_string(occ));
 }
 void leave() { sim_ctr_add(CTR_OCC, -1); }
+void enter2()
+{
+  const long occ = sim_ctr_add(CTR_OCC2, 1);
+  if (occ > sim_ctr_get(CTR_MAXOCC2)) sim_ctr_add(CTR_MAXOCC2, occ - sim_ctr_get(CTR_MAXOCC2));
+  if (occ > 1) rec("occupancy2 n=" + std::to_string(occ));
+}
+void leave2() { sim_ctr_add(CTR_OCC2, -1); }
+
+template <class P>
+void work2(P& lad, const Section& s)
+{
+  for (int i = 0; i < s.incr; ++i)
+  {
+    const long v = lad->value;
+    for (int y = 0; y < s.yields; ++y) sim_yield(YK_USER);
+    lad->value = v + 1;
+    lad->writes += 1;
+    sim_ctr_add(CTR_INCR2, 1);
+  }
+}
 
 template <class P>
 void work(P& lad, const Section& s)
@@ -106,6 +127,32 @@ void task_body(void* arg)
       }
       rec("section mode=moved");
     }
+    else if (s.mode == 4)
+    {  // hold the first instance while working on the second one (fixed order: no lock-order inversion)
+      {
+        auto a = (*g_mw)();
+        enter();
+        work(a, s);
+        {
+          auto b = (*g_mw2)();
+          enter2();
+          work2(b, s);
+          leave2();
+        }
+        leave();
+      }
+      rec("section mode=nested");
+    }
+    else if (s.mode == 5)
+    {  // the second instance alone
+      {
+        auto b = (*g_mw2)();
+        enter2();
+        work2(b, s);
+        leave2();
+      }
+      rec("section mode=second");
+    }
     else
     {  // reset, then immediately take the lock again from the same thread
       auto lad = (*g_mw)();
@@ -134,18 +181,26 @@ void execute_run(int out_fd)
   if (__sanitizer_set_death_callback) __sanitizer_set_death_callback(death_callback);
   sim_start(&R.sc);
   g_mw = new Wrapped;
+  g_mw2 = new Wrapped;
   for (auto& t : R.tasks) sim_spawn(t.name.c_str(), &task_body, &t, 0, 0);
   sim_join_all();
   sim_join_finished();
-  long value, writes;
+  long value, writes, value2, writes2;
   {
     auto lad = (*g_mw)();
     value = lad->value;
     writes = lad->writes;
   }
+  {
+    auto lad = (*g_mw2)();
+    value2 = lad->value;
+    writes2 = lad->writes;
+  }
   rec("final value=" + std::to_string(value) + " writes=" + std::to_string(writes) + " increments=" + std::to_string(sim_ctr_get(CTR_INCR)) +
-      " max_occupancy=" + std::to_string(sim_ctr_get(CTR_MAXOCC)));
+      " max_occupancy=" + std::to_string(sim_ctr_get(CTR_MAXOCC)) + " value2=" + std::to_string(value2) + " writes2=" + std::to_string(writes2) +
+      " increments2=" + std::to_string(sim_ctr_get(CTR_INCR2)) + " max_occupancy2=" + std::to_string(sim_ctr_get(CTR_MAXOCC2)));
   delete g_mw;
+  delete g_mw2;
   sim_finish(SIMX_OK);
 }
 
